@@ -353,7 +353,7 @@ func TestVerifC07Controller(t *testing.T) {
 			UpstreamReadyCallback: func(*componentdns.Upstream) error { return nil },
 		})
 		if err != nil {
-			st.Emit(cfgOp, "builderr:"+err.Error())
+			st.Emit(cfgOp, "builderr")
 			continue
 		}
 		st.Emit(cfgOp, "ok")
